@@ -28,6 +28,11 @@ IMPORT_CASES = [
     ("other-alias-own-func", {"main.tsh": 'import m "lib.tsh"\nfunc Own() int {\n\treturn 5\n}\nprint(n.Own(), m.Pub())\n', "lib.tsh": 'func Pub() int {\n\treturn 1\n}\n'}, False),
     ("imported-alias-own-func", {"main.tsh": 'import m "lib.tsh"\nfunc Own() int {\n\treturn 5\n}\nprint(m.Own())\n', "lib.tsh": 'func Pub() int {\n\treturn 1\n}\n'}, False),
     ("own-func-unqualified-next-to-import", {"main.tsh": 'import m "lib.tsh"\nfunc Own() int {\n\treturn 5\n}\nprint(Own(), m.Pub())\n', "lib.tsh": 'func Pub() int {\n\treturn 1\n}\n'}, True),
+    # known finding imported-public-name-reachable-under-mangled-name: the public names of an imported file are registered in the importing
+    # file's tables under their emitted name h<hash>_<Name>, so that spelling - which is defined nowhere in the main file - resolves without alias
+    ("mangled-import-func-without-alias", {"main.tsh": 'import m "lib.tsh"\nprint(%s_Pub())\n', "lib.tsh": 'var Count = 5\nfunc Pub() int {\n\treturn Count\n}\n'}, False),
+    ("mangled-import-var-without-alias", {"main.tsh": 'import m "lib.tsh"\nprint(m.Pub(), %s_Count)\n', "lib.tsh": 'var Count = 5\nfunc Pub() int {\n\treturn Count\n}\n'}, False),
+    ("mangled-import-private-func-without-alias", {"main.tsh": 'import m "lib.tsh"\nprint(m.Pub(), %s_priv())\n', "lib.tsh": 'func priv() int {\n\treturn 1\n}\nfunc Pub() int {\n\treturn priv()\n}\n'}, False),
     ("import-local-without-alias", {"main.tsh": 'import "lib.tsh"\nprint(1)\n', "lib.tsh": 'func Pub() int {\n\treturn 1\n}\n'}, False),
 ]
 
@@ -45,7 +50,13 @@ def run(res, b, tier, seed):
     for i, r in enumerate(rows):
         cases.append(pipeline.Case("m%d" % i, {"main.tsh": b'import l "lib.tsh"\nprint(1)\n', "lib.tsh": r["src"].encode()},
                                    meta=dict(r, name=r["name"] + "@imported", src='// lib.tsh, imported by: import l "lib.tsh"; print(1)\n' + r["src"])))
+    import hashlib
     for name, files, expect in IMPORT_CASES:
+        if name.startswith("mangled-import-"):
+            files = dict(files, **{"main.tsh": files["main.tsh"] % ("h" + hashlib.sha256(files["lib.tsh"].encode()).hexdigest()[:7])})
+            cases.append(pipeline.Case("i" + name, {k: v.encode() for k, v in files.items()},
+                                       meta=dict(name=name, expect=expect, src=files["main.tsh"], d=-9, u=-9, known="mangled-import-name" if "private" not in name else None)))
+            continue
         cases.append(pipeline.Case("i" + name, {k: v.encode() for k, v in files.items()}, meta=dict(name=name, expect=expect, src=files["main.tsh"], d=-9, u=-9)))
     pipeline.run_pipe(b, cases, "as")
     pipeline.model_parse(b, cases)
@@ -105,6 +116,9 @@ def run(res, b, tier, seed):
     real = []
     for c, kind, detail in fails:
         if c.meta.get("known") == "nested-return-void" and res.known_finding("return-in-void-function-nested", kind):
+            continue
+        if c.meta.get("known") == "mangled-import-name" and kind == "out-of-scope-or-misplaced-accepted" and \
+                res.known_finding("imported-public-name-reachable-under-mangled-name", kind):
             continue
         real.append((c, kind, detail))
     for c, kind, detail in real[:3]:
